@@ -137,6 +137,17 @@ func runC12(t *fw.T, prog *gen.Node, lay NamedLayout) {
 				po = ParseOut{Prog: prog, Err: err, Errors: p.Errors(), P: p}
 				return
 			}
+			if i%8 == 4 {
+				// strict parser with observing plugins installed (pass-through / continue-after-next interceptors): what is
+				// not JavaScript is reported whoever watches the parse
+				po = parseObserved(c.text, i)
+				return
+			}
+			if i%8 == 0 {
+				// the statement loop driven by hand through the public API; errors read from Errors()
+				po = parseByHand(c.text, Mode{})
+				return
+			}
 			if i%4 == 2 && !hasLineLeadingBracket(c.text) {
 				// strict mode with smart semicolons on: the text has no '(' / '[' first on a line, so smart mode reads it
 				// exactly like the default mode (C13) and a text that is not JavaScript must be reported all the same
